@@ -173,6 +173,43 @@ def main():
           and re.search(r"pub\s+struct\s+CreateResponsePayload\s*\{\s*body:\s*Value,\s*errors:\s*Vec<String>,\s*\}", cr) is not None
           and "self.errors" not in pimpl.replace("&self.errors", "") and "mut self" not in pimpl,
           "CreateResponsePayload (private fields body, errors) is built or edited somewhere else than in new()")
+    # ---- the value limits of the input items the loop builds (Model.ToolLoop: CALL_ID_*, NAME_*, TEXT_MAX, name_char_ok, role_ok)
+    lim = {}
+    try:
+        fc = comps["FunctionCallItemParam.json"]
+        fo = comps["FunctionCallOutputItemParam.json"]
+        lim["call_min"] = fc["properties"]["call_id"]["minLength"]
+        lim["call_max"] = fc["properties"]["call_id"]["maxLength"]
+        lim["name_min"] = fc["properties"]["name"]["minLength"]
+        lim["name_max"] = fc["properties"]["name"]["maxLength"]
+        lim["pattern"] = fc["properties"]["name"]["pattern"]
+        vneed(fc["properties"]["call_id"]["type"] == "string" and fc["properties"]["name"]["type"] == "string", "FunctionCallItemParam: call_id / name are not strings")
+        vneed(sorted(fc["required"]) == ["arguments", "call_id", "name", "type"], "FunctionCallItemParam.required changed: %s" % fc["required"])
+        vneed(set(fc["properties"]["arguments"].keys()) <= {"description", "type"} and fc["properties"]["arguments"]["type"] == "string", "FunctionCallItemParam.arguments carries a constraint the model does not know")
+        vneed(sorted(fo["required"]) == ["call_id", "output", "type"], "FunctionCallOutputItemParam.required changed: %s" % fo["required"])
+        vneed(fo["properties"]["call_id"].get("minLength") == lim["call_min"] and fo["properties"]["call_id"].get("maxLength") == lim["call_max"]
+              and set(fo["properties"]["call_id"].keys()) <= {"description", "type", "minLength", "maxLength"},
+              "FunctionCallOutputItemParam.call_id limits differ from FunctionCallItemParam's")
+        vneed(set(fc["properties"]["call_id"].keys()) <= {"description", "type", "minLength", "maxLength"}, "FunctionCallItemParam.call_id carries a constraint the model does not know")
+        vneed(set(fc["properties"]["name"].keys()) <= {"description", "type", "minLength", "maxLength", "pattern"}, "FunctionCallItemParam.name carries a constraint the model does not know")
+        outs = fo["properties"]["output"]["oneOf"]
+        lim["text_max"] = outs[0]["maxLength"]
+        vneed(outs[0]["type"] == "string" and "minLength" not in outs[0] and "pattern" not in outs[0], "FunctionCallOutputItemParam.output (string) changed")
+        roles = []
+        for nm in ("UserMessageItemParam.json", "AssistantMessageItemParam.json", "SystemMessageItemParam.json", "DeveloperMessageItemParam.json"):
+            mp = comps[nm]
+            roles += mp["properties"]["role"]["enum"]
+            strs = [x for x in mp["properties"]["content"]["oneOf"] if x.get("type") == "string"]
+            vneed(len(strs) == 1 and strs[0].get("maxLength") == lim["text_max"] and "minLength" not in strs[0] and "pattern" not in strs[0],
+                  "%s: string content limit differs from %s" % (nm, lim["text_max"]))
+            vneed(sorted(mp["required"]) == ["content", "role", "type"], "%s.required changed" % nm)
+        lim["roles"] = roles
+        item_refs = [x.get("$ref") for x in comps["ItemParam.json"]["oneOf"]]
+        msg_like = [r for r in item_refs if r and "MessageItemParam" in r]
+        vneed(sorted(msg_like) == sorted("./" + n for n in ("UserMessageItemParam.json", "AssistantMessageItemParam.json", "SystemMessageItemParam.json", "DeveloperMessageItemParam.json")),
+              "ItemParam has other message variants than user/assistant/system/developer: %s" % msg_like)
+    except Exception as e:  # noqa
+        vneed(False, "split_components.json: item limits not in the expected shape: %r" % (e,))
     notes.extend(vnotes)
 
     os.makedirs(a.out, exist_ok=True)
@@ -189,6 +226,31 @@ def main():
         f.write("(* the request-body validator: fields judged outside the CreateResponseBody schema (by the component schema the\n   document names for them); `input` must not be one of them *)\n")
         f.write("Definition gen_validator_carved : list string := [%s].\n" % "; ".join('"%s"%%string' % c.replace('"', '""') for c in carved))
         f.write("Definition gen_ok_validator : bool := %s.\n" % ("true" if vok else "false"))
+        f.write("(* value limits of function_call / function_call_output / message items in split_components.json *)\n")
+        f.write("Definition gen_call_id_min : N := %d.\nDefinition gen_call_id_max : N := %d.\n" % (lim.get("call_min", 0), lim.get("call_max", 0)))
+        f.write("Definition gen_name_min : N := %d.\nDefinition gen_name_max : N := %d.\n" % (lim.get("name_min", 0), lim.get("name_max", 0)))
+        f.write("Definition gen_text_max : N := %d.\n" % lim.get("text_max", 0))
+        f.write("Definition gen_name_pattern : string := \"%s\"%%string.\n" % str(lim.get("pattern", "")).replace('"', '""'))
+        f.write("Definition gen_roles : list string := [%s].\n" % "; ".join('"%s"%%string' % str(x).replace('"', '""') for x in lim.get("roles", [])))
+        # the pattern must be `^[class]+$`; the class is translated into ranges here, the model's name_char_ok is compared
+        # with it on all code points below 1200 (and minLength >= 1 makes `+` vs `*` irrelevant)
+        ranges = []
+        mcls = re.fullmatch(r"\^\[([^\]\\^]+)\]\+\$", str(lim.get("pattern", "")))
+        if mcls:
+            cls = mcls.group(1)
+            k = 0
+            while k < len(cls):
+                if k + 2 < len(cls) and cls[k + 1] == "-":
+                    ranges.append((ord(cls[k]), ord(cls[k + 2])))
+                    k += 3
+                else:
+                    ranges.append((ord(cls[k]), ord(cls[k])))
+                    k += 1
+        f.write("(* the character class of that pattern (must be ^[class]+$), translated by the extractor *)\n")
+        f.write("Definition gen_pattern_understood : bool := %s.\n" % ("true" if mcls else "false"))
+        f.write("Definition gen_pattern_class (c : N) : bool :=\n  %s.\n" % (" || ".join("((%d <=? c) && (c <=? %d))" % r for r in ranges) or "false"))
+        f.write("Lemma gen_schema_limits_ok :\n  (gen_call_id_min =? CALL_ID_MIN) && (gen_call_id_max =? CALL_ID_MAX) && (gen_name_min =? NAME_MIN) && (gen_name_max =? NAME_MAX)\n  && (gen_text_max =? TEXT_MAX) && gen_pattern_understood && (1 <=? gen_name_min)\n  && forallb (fun k => Bool.eqb (name_char_ok (N.of_nat k)) (gen_pattern_class (N.of_nat k))) (seq 0 1200)\n  && forallb (fun r => role_ok (lit r)) gen_roles && (length gen_roles =? 4)%nat\n  && negb (role_ok (lit \"tool\"%string)) = true.\n")
+        f.write("Proof. vm_compute. reflexivity. Qed.\n")
         f.write("Lemma gen_validator_ok :\n  gen_ok_validator && forallb (fun f => existsb (String.eqb f) [\"tools\"%string; \"tool_choice\"%string]) gen_validator_carved = true.\n")
         f.write("Proof. vm_compute. reflexivity. Qed.\n")
     for n in notes:
